@@ -33,6 +33,7 @@ fn errno_name(e: i64) -> String {
         libc::EACCES => "EACCES",
         libc::EEXIST => "EEXIST",
         libc::EXDEV => "EXDEV",
+        libc::EMLINK => "EMLINK",
         libc::ENOTDIR => "ENOTDIR",
         libc::EISDIR => "EISDIR",
         libc::EINVAL => "EINVAL",
@@ -74,6 +75,13 @@ fn errno_of_name(s: &str) -> i64 {
         "EINTR" => libc::EINTR,
         "ENOTDIR" => libc::ENOTDIR,
         "ENAMETOOLONG" => libc::ENAMETOOLONG,
+        "EMLINK" => libc::EMLINK,
+        "EXDEV" => libc::EXDEV,
+        "ENOSYS" => libc::ENOSYS,
+        "EOPNOTSUPP" => libc::EOPNOTSUPP,
+        "EINVAL" => libc::EINVAL,
+        "EBUSY" => libc::EBUSY,
+        "EAGAIN" => libc::EAGAIN,
         _ => libc::EIO,
     }) as i64
 }
